@@ -422,13 +422,26 @@ impl QueryEngine {
     /// that can contribute to the result has `min <= timestamp <= max`.
     fn extract_time_bounds(plan: &LogicalPlan) -> (Option<i64>, Option<i64>) {
         match plan {
-            LogicalPlan::Filter(filter) => Self::intersect_bounds(
-                Self::extract_time_from_expr(&Self::simplify_predicate(
-                    &filter.predicate,
-                    filter.input.schema(),
-                )),
-                Self::extract_time_bounds(&filter.input),
-            ),
+            LogicalPlan::Filter(filter) => {
+                // Only a filter on the stored timestamp bounds what has to be read: a derived
+                // table may compute a column of that name.
+                let time_names: Vec<String> = filter
+                    .predicate
+                    .column_refs()
+                    .into_iter()
+                    .filter(|c| c.name == "timestamp" || c.name == "time")
+                    .map(|c| c.name.clone())
+                    .collect();
+                let own = if Self::are_stored_columns(&filter.input, &time_names) {
+                    Self::extract_time_from_expr(&Self::simplify_predicate(
+                        &filter.predicate,
+                        filter.input.schema(),
+                    ))
+                } else {
+                    (None, None)
+                };
+                Self::intersect_bounds(own, Self::extract_time_bounds(&filter.input))
+            }
             LogicalPlan::TableScan(scan) => scan
                 .filters
                 .iter()
@@ -631,8 +644,18 @@ impl QueryEngine {
     ) {
         match plan {
             LogicalPlan::Filter(filter) => {
-                if let Some(pred) = Self::convert_expr_to_predicate(&filter.predicate) {
-                    predicates.push(pred);
+                // Chunk statistics describe stored columns: a filter over a derived table may
+                // name a column the sub-query computes (`SELECT 0 - value AS value ...`).
+                let names: Vec<String> = filter
+                    .predicate
+                    .column_refs()
+                    .into_iter()
+                    .map(|c| c.name.clone())
+                    .collect();
+                if Self::are_stored_columns(&filter.input, &names) {
+                    if let Some(pred) = Self::convert_expr_to_predicate(&filter.predicate) {
+                        predicates.push(pred);
+                    }
                 }
                 Self::extract_predicates_from_plan(&filter.input, predicates);
             }
@@ -649,6 +672,71 @@ impl QueryEngine {
                 Self::extract_predicates_from_plan(&agg.input, predicates);
             }
             _ => {}
+        }
+    }
+
+    /// Whether each of `names`, as seen in the output of `plan`, is the stored column of that
+    /// name, handed through unchanged from the table scan (not computed, not renamed).
+    fn are_stored_columns(plan: &LogicalPlan, names: &[String]) -> bool {
+        // An output expression that is the input column `name` itself.
+        fn passes_through(expr: &Expr, name: &str) -> bool {
+            match expr {
+                Expr::Column(c) => c.name == name,
+                Expr::Alias(a) => a.name == name && passes_through(&a.expr, name),
+                _ => false,
+            }
+        }
+        fn defines(expr: &Expr, name: &str) -> bool {
+            match expr {
+                Expr::Column(c) => c.name == name,
+                Expr::Alias(a) => a.name == name,
+                other => other.schema_name().to_string() == name,
+            }
+        }
+        #[allow(deprecated)]
+        fn plain_wildcard(expr: &Expr) -> Option<bool> {
+            match expr {
+                Expr::Wildcard { options, .. } => Some(
+                    options.replace.is_none()
+                        && options.rename.is_none()
+                        && options.exclude.is_none()
+                        && options.except.is_none(),
+                ),
+                _ => None,
+            }
+        }
+
+        if names.is_empty() {
+            return true;
+        }
+        match plan {
+            LogicalPlan::TableScan(_) => true,
+            LogicalPlan::Filter(f) => Self::are_stored_columns(&f.input, names),
+            LogicalPlan::Sort(s) => Self::are_stored_columns(&s.input, names),
+            LogicalPlan::Limit(l) => Self::are_stored_columns(&l.input, names),
+            LogicalPlan::SubqueryAlias(a) => Self::are_stored_columns(&a.input, names),
+            LogicalPlan::Projection(proj) => {
+                let wildcards: Vec<bool> = proj.expr.iter().filter_map(plain_wildcard).collect();
+                if wildcards.iter().any(|plain| !plain) {
+                    return false;
+                }
+                names.iter().all(|name| {
+                    let mut defining = proj.expr.iter().filter(|e| defines(e, name)).peekable();
+                    if defining.peek().is_none() {
+                        // only `*` can have produced it
+                        !wildcards.is_empty()
+                    } else {
+                        defining.all(|e| passes_through(e, name))
+                    }
+                }) && Self::are_stored_columns(&proj.input, names)
+            }
+            LogicalPlan::Aggregate(agg) => {
+                names.iter().all(|name| {
+                    agg.group_expr.iter().any(|e| passes_through(e, name))
+                        && !agg.aggr_expr.iter().any(|e| defines(e, name))
+                }) && Self::are_stored_columns(&agg.input, names)
+            }
+            _ => false,
         }
     }
 
